@@ -62,7 +62,7 @@ impl ModelChecker {
                     events.push(McEvent::TimerFired {
                         proc,
                         timer,
-                        timer_delay: McTime::from(0.0),
+                        timer_delay: McTime::from(event.time - sim.time()),
                     });
                 }
             });
